@@ -97,6 +97,8 @@ def _judge(acc, items, k, opt_max, opt_min):
             r, case = _call(acc, "multifit", items, k, {"iterations": i})
             if r is None: continue
             sums, _ = r
+            if len(sums) > k:
+                acc.violation("multifit", cfg_str(case), inp_str(case), "more_bins_than_requested", f"<= {k} bins", sums, case)
             bound = (Fraction(122, 100) + Fraction(1, 2 ** i)) * opt_max
             if Fraction(max(sums)) > bound:
                 acc.violation("multifit", cfg_str(case), inp_str(case), "largest_sum_ratio", f"<= (1.22+2^-{i}) * {opt_max}", sums, case)
